@@ -173,13 +173,17 @@ func (a Lin) DropVars(drop func(string) bool) Lin {
 
 // SizeAn is one analysis run: a scenario, a global bound direction for buffer effects, and bookkeeping.
 type SizeAn struct {
-	P        *Prog
-	Upper    bool            // direction for buffer-effect joins
-	Scenario map[string]bool // canonical atom → truth
-	Asked    map[string]bool // atoms that were looked up and not decided by the scenario
-	Opaque   map[string]bool // FuncKeys whose integer result is kept as an opaque per-element quantity
-	Assumed  []string        // assumptions made (reported as evidence)
-	Steps    int
+	P               *Prog
+	Upper           bool            // direction for buffer-effect joins
+	Scenario        map[string]bool // canonical atom → truth
+	Asked           map[string]bool // atoms that were looked up and not decided by the scenario
+	Opaque          map[string]bool // FuncKeys whose integer result is kept as an opaque per-element quantity
+	Assumed         []string        // assumptions made (reported as evidence)
+	Steps           int
+	OpaqueBuffersIn *Fn // local buffers of this function are kept as opaque quantities "buf:<name>" (writes to them are ignored)
+	frozen          map[int]bool
+	OnCall          func(fr *SzFrame, st *SzState, call *ast.CallExpr) // observer: every call in statement position
+	OnIf            func(fr *SzFrame, st *SzState, ifs *ast.IfStmt)    // observer: every if statement before it is evaluated
 
 	cellSeq int
 	depth   int
@@ -491,7 +495,7 @@ func scaleLoop(d Lin, K string) Lin {
 		r.V["len("+K+")"] = d.C
 	}
 	for v, k := range d.V {
-		if strings.Contains(v, K+"[]") || strings.HasPrefix(v, "call:") {
+		if strings.Contains(v, K+"[]") || strings.HasPrefix(v, "call:") || strings.HasPrefix(v, "Σ") {
 			r.V[sumVar(v)] += k
 		} else {
 			r.Unk = append(r.Unk, "loop over "+K+" multiplies "+v)
@@ -1036,6 +1040,15 @@ func (fr *SzFrame) runBody(st *SzState, bytesResult bool) *szRet {
 	return out
 }
 
+// RunBytes is Run for a function whose []byte results are wanted as lengths.
+func (fr *SzFrame) RunBytes(st *SzState) (*SzState, []Lin) {
+	out := fr.runBody(st, true)
+	if out == nil {
+		return nil, nil
+	}
+	return out.st, out.vals
+}
+
 // Run analyses the frame's function from st and returns the final state and joined results (nil: no success path).
 func (fr *SzFrame) Run(st *SzState) (*SzState, []Lin) {
 	out := fr.runBody(st, false)
@@ -1166,6 +1179,9 @@ func (fr *SzFrame) stmt(st *SzState, s ast.Stmt, bytesResult bool) *SzState {
 				return nil
 			}
 		}
+		if fr.An.OnIf != nil && fr.inLoop == 0 {
+			fr.An.OnIf(fr, st, x)
+		}
 		v, known := fr.Cond(st, x.Cond)
 		var thenSt, elseSt *SzState
 		if !known || v {
@@ -1255,7 +1271,15 @@ func (fr *SzFrame) assign(st *SzState, lhs, rhs ast.Expr, define bool) {
 	switch {
 	case isBytesBuffer(t):
 		// bytes.NewBuffer(nil) / bytes.NewBuffer(make([]byte, 0, n))
-		fr.BindCell(st, obj, LinC(0), true)
+		if fr.An.OpaqueBuffersIn == fr.Fn && fr.Entry && fr.An.opaqueLocal(fr, id) {
+			cell := fr.BindCell(st, obj, LinV("buf:"+id.Name, 1), true)
+			if fr.An.frozen == nil {
+				fr.An.frozen = map[int]bool{}
+			}
+			fr.An.frozen[cell] = true
+		} else {
+			fr.BindCell(st, obj, LinC(0), true)
+		}
 	case isIntType(t):
 		v := fr.Int(st, rhs, fr.Upper)
 		if b, bound := fr.env[obj]; bound && b.isCell && !define {
@@ -1290,6 +1314,9 @@ func (fr *SzFrame) assign(st *SzState, lhs, rhs ast.Expr, define bool) {
 
 // callStmt handles a call in statement position: buffer writes, or inlined callees for their effects.
 func (fr *SzFrame) callStmt(st *SzState, call *ast.CallExpr) {
+	if fr.An.OnCall != nil && fr.inLoop == 0 {
+		fr.An.OnCall(fr, st, call)
+	}
 	if sel, ok := call.Fun.(*ast.SelectorExpr); ok && isBytesBuffer(fr.typeOf(sel.X)) {
 		id, isId := Unparen(sel.X).(*ast.Ident)
 		var b *szBinding
@@ -1300,6 +1327,9 @@ func (fr *SzFrame) callStmt(st *SzState, call *ast.CallExpr) {
 			return
 		}
 		up := fr.An.Upper
+		if fr.An.frozen[b.cell] {
+			return
+		}
 		switch sel.Sel.Name {
 		case "WriteByte":
 			st.Cells[b.cell] = st.Cells[b.cell].Add(LinC(1))
@@ -1550,4 +1580,26 @@ func SortedKeys(m map[string]bool) []string {
 	}
 	sort.Strings(ks)
 	return ks
+}
+
+// opaqueLocal: every local buffer except the one whose bytes the function returns.
+func (an *SizeAn) opaqueLocal(fr *SzFrame, id *ast.Ident) bool {
+	returned := false
+	obj := fr.Fn.Pkg.TypesInfo.ObjectOf(id)
+	ast.Inspect(fr.Fn.Decl.Body, func(n ast.Node) bool {
+		ret, ok := n.(*ast.ReturnStmt)
+		if !ok {
+			return true
+		}
+		for _, r := range ret.Results {
+			ast.Inspect(r, func(m ast.Node) bool {
+				if x, isId := m.(*ast.Ident); isId && fr.Fn.Pkg.TypesInfo.ObjectOf(x) == obj {
+					returned = true
+				}
+				return true
+			})
+		}
+		return true
+	})
+	return !returned
 }
